@@ -8,6 +8,7 @@ pub mod c09;
 pub mod c10;
 pub mod c14;
 pub mod c15;
+pub mod c17;
 pub mod serial;
 pub mod signnode;
 
@@ -27,6 +28,8 @@ pub fn all() -> Vec<Box<dyn Scenario>> {
         Box::new(c15::C15Write),
         Box::new(c15::C15Compositions),
         Box::new(serial::C16),
+        Box::new(c17::C17Twin),
+        Box::new(c17::C17Bridge),
         Box::new(serial::C18),
         Box::new(serial::C20),
     ]
@@ -62,6 +65,8 @@ pub fn expected_probes(name: &str) -> Vec<&'static str> {
             "abandoned_transfer_then_reset",
         ],
         "c12-flood" => vec!["counter_taken_past_65535"],
+        "c17-twin" => vec!["task_switches", "op_succeeded_both_ways", "op_failed_both_ways", "reconfigure_as_other_type", "two_frames_in_line_together", "simulated_read_timeouts", "eintr", "short_write"],
+        "c17-bridge" => vec!["undecodable_line_at_bridge", "bridge_wrote_reply", "bridge_silent_no_reply", "eintr", "short_write"],
         "c14-shared-bus" => vec!["two_signs_in_PixelsInProgress", "chunk_absorbed_by_two_signs", "absent_address", "reply_from_sign_index_ge_1", "task_switches"],
         "c02-wire-damage" => vec!["ok_same_frame_case_change", "ok_same_frame_terminator_only", "err_invalid", "err_length", "err_checksum", "variants_through_stream_reader", "lf_inserted_mid_line"],
         "c15-read" => vec!["eintr", "eof", "io_error", "eintr_mid_line", "line_without_lf_at_eof", "error_at_first_call", "error_at_last_call", "hard_error_placements"],
